@@ -126,9 +126,7 @@ def _case(pk, iname, cmd, via):
             return rt.fail('C11:traceback:%s:%s' % (r['exc'].split(':')[0], label), r['exc'])
         # the entry under test must be gone (both commands select it)
         if name in CRAFTED:
-            if c in ('empty', 'empty-trash-dir') and scen.sub(after, info_dir + '/' + name + '.trashinfo') is not None:
-                return rt.fail('C11:crafted-info-not-purged:' + label, '')
-            if c not in ('empty', 'empty-trash-dir', 'rm-star') and scen.sub(after, files_dir + '/zz') is None and c != 'empty-days':
+            if c == 'rm-exact' and scen.sub(after, files_dir + '/zz') is None:
                 return rt.fail('C11:crafted-info-purged-other-payloads:' + label, 'zz payload gone')
             return rt.ok()
         if scen.sub(after, files_dir + '/' + name) is not None or scen.sub(after, info_dir + '/' + name + '.trashinfo') is not None:
